@@ -58,7 +58,26 @@ CSS_CALLBACK = {
                  'delimiter == -1 or (0 <= delimiter and delimiter < len(source))',
                  # a token ends at or before its delimiter character (an empty selector `{` and a block
                  # end `}` end right after it)
-                 'delimiter == -1 or end <= delimiter + 1'],
+                 'delimiter == -1 or end <= delimiter + 1',
+                 # what each token type stands for (action_utils builds sections and properties from it)
+                 "token_type == 'selector' or token_type == 'propertyName' or token_type == 'propertyValue' "
+                 "or token_type == 'blockEnd'",
+                 # a selector is delimited by its `{`, a block end is the `}` itself
+                 "implies(token_type == 'selector', delimiter != -1 and source[delimiter] == '{')",
+                 "implies(token_type == 'blockEnd', delimiter == start and end == start + 1 and source[start] == '}')",
+                 # a value ends at `;`, at the `}` that closes the block, or with the source
+                 "implies(token_type == 'propertyValue' and delimiter != -1, source[delimiter] == ';' or source[delimiter] == '}')",
+                 # tokens come in document order: nothing starts before the previous token (or its delimiter) ended
+                 'g_last <= start',
+                 # only the token that ends with the source has no delimiter: nothing is reported after it
+                 'not g_final',
+                 # ... and, except for the `}` that doubles as the delimiter of the value before it, every
+                 # token starts after the previous token's delimiter character
+                 "token_type == 'blockEnd' or g_delim < start",
+                 # a value is reported right after its name
+                 "implies(token_type == 'propertyValue', g_prev == 'propertyName')"],
+    'ghost_update': [('g_last', 'max(end, delimiter)'), ('g_final', 'delimiter == -1'), ('g_delim', 'delimiter'),
+                     ('g_prev', 'token_type')],
     'returns': 'any',
 }
 
@@ -75,10 +94,16 @@ fn('emmet.css_matcher.scan:scan', props=P,
    ensures=[],
    modifies=[],
    callback=CSS_CALLBACK,
+   ghost={'g_last': ('int', '0'), 'g_final': ('bool', 'False'), 'g_delim': ('int', '-1'), 'g_prev': ('str', "''")},
    loops={0: {'anchor': 'while not scanner.eof()',
               'invariant': ['wf(scanner)', 'scanner.pos <= scanner.end', 'scanner.end == len(source)',
                             'same_str(scanner.string, source)',
-                            'css_state_ok(state, scanner.pos)'],
+                            'css_state_ok(state, scanner.pos)',
+                            'g_last <= scanner.pos', 'not g_final', 'g_delim < scanner.pos',
+                            'state.start == -1 or g_delim < state.start',
+                            'state.property_start == -1 or g_delim < state.property_start',
+                            'state.start == -1 or g_last <= state.start',
+                            'state.property_start == -1 or g_last <= state.property_start'],
               'decreases': 'scanner.end - scanner.pos'}})
 fn('emmet.css_matcher.scan:scan.<locals>.notify', inline=True, props=P)
 
